@@ -165,7 +165,7 @@ EXC_PARENT = {
     'ArithmeticError': 'Exception', 'Exception': 'BaseException', 'NumbaTypeError': 'TypeError',
     'OverflowError': 'ArithmeticError', 'StopIteration': 'Exception', 'OSError': 'Exception',
     'FileNotFoundError': 'OSError', 'UnicodeDecodeError': 'ValueError',
-    'DeprecationWarning': 'Warning', 'Warning': 'Exception', 'KeyboardInterrupt': 'BaseException',
+    'ParseException': 'Exception', 'ParseSyntaxException': 'ParseException', 'DeprecationWarning': 'Warning', 'Warning': 'Exception', 'KeyboardInterrupt': 'BaseException',
 }
 
 
@@ -392,7 +392,7 @@ class Interp:
         for dec in reversed(st.decorator_list):
             d = self.eval(dec, frame)
             val = self.apply_decorator(d, val, dec, frame)
-        self.bind(frame, st.name, val)
+        self.bind(frame, self.mangle(st.name, frame) if getattr(frame, 'class_qual', None) else st.name, val)
 
     def apply_decorator(self, d, val, node, frame):
         if isinstance(d, ExtRef):
@@ -519,7 +519,7 @@ class Interp:
             self.models.store(self, obj, key, v, st)
         elif isinstance(target, ast.Attribute):
             obj = self.eval(target.value, frame)
-            self.setattr(obj, target.attr, v, st)
+            self.setattr(obj, self.mangle(target.attr, frame), v, st)
         else:
             self.fail('unsupported assignment target', st)
 
@@ -731,9 +731,24 @@ class Interp:
             return b
         raise AbsRaise(ExcVal('NameError', (name,)), node)
 
+    def mangle(self, name, frame):
+        """private name mangling inside class bodies: __x -> _Class__x"""
+        if not (name.startswith('__') and not name.endswith('__')):
+            return name
+        f = frame
+        while f is not None:
+            owner = getattr(f.func, 'owner', None) if f.func is not None else None
+            if owner is not None:
+                return f'_{owner.name.lstrip("_")}{name}'
+            cq = getattr(f, 'class_qual', None)
+            if cq:
+                return f'_{cq.split(".")[-1].lstrip("_")}{name}'
+            f = f.closure
+        return name
+
     def ex_Attribute(self, node, frame):
         obj = self.eval(node.value, frame)
-        return self.getattr(obj, node.attr, node)
+        return self.getattr(obj, self.mangle(node.attr, frame), node)
 
     def getattr(self, obj, name, node, default=_NODEFAULT):
         try:
@@ -757,6 +772,8 @@ class Interp:
             try:
                 v = obj.cls.lookup(name)
             except KeyError:
+                if hasattr(obj, 'dict_data') and name in ('update', 'get', 'items', 'keys', 'values', 'pop', 'setdefault', 'copy'):
+                    return ModelMethod(obj.dict_data, name)
                 if name == '__class__':
                     return obj.cls
                 if name == '__dict__':
@@ -1061,6 +1078,8 @@ class Interp:
             return ExcVal(cls.name, tuple(args))
         inst = Instance(cls)
         inst._constructing = True
+        if self.models.is_dict_subclass(cls):
+            inst.dict_data = {}
         if cls.record_fields is not None:
             names = [n for n, _ in cls.record_fields]
             if len(args) > len(names):
